@@ -125,6 +125,38 @@ def _digest(obj) -> str:
     return hashlib.blake2b(json.dumps(obj, sort_keys=True, default=repr).encode(), digest_size=12).hexdigest()
 
 
+class SpinTimeout(BaseException):
+    """Raised (from a CPU-time alarm) inside an execution that has burnt SPIN_LIMIT seconds of CPU without finishing: library code
+    spinning in a loop that contains no scheduling or choice point (every harness has a step horizon, but a loop without steps never
+    reaches it).  The worlds turn it into a livelock verdict of that execution."""
+
+
+SPIN_LIMIT = 12.0      # seconds of CPU time of the worker process for ONE execution (ordinary executions take milliseconds)
+
+
+_SPINS = [0]
+
+
+def _spin_handler(signum, frame):
+    _SPINS[0] += 1
+    raise SpinTimeout(f"execution used more than {SPIN_LIMIT}s of CPU without reaching a scheduling point")
+
+
+def _arm_spin_alarm():
+    import signal
+    import threading
+    if threading.current_thread() is not threading.main_thread():
+        return False
+    signal.signal(signal.SIGVTALRM, _spin_handler)
+    signal.setitimer(signal.ITIMER_VIRTUAL, SPIN_LIMIT)
+    return True
+
+
+def _disarm_spin_alarm():
+    import signal
+    signal.setitimer(signal.ITIMER_VIRTUAL, 0)
+
+
 _CACHED_FUNCS = None
 
 
@@ -162,12 +194,19 @@ def run_once(spec, prefix, labels=None, want_fp=True, keep_trace=False, stop=Non
     reset_library_caches()
     h = build_harness(spec)
     ch = Chooser(prefix, labels, want_fp=want_fp, horizon=getattr(h, "horizon", 100000), stop=stop)
+    armed = _arm_spin_alarm()
+    spins0 = _SPINS[0]
     try:
         ex = h.run(ch)
+    except SpinTimeout as e:
+        return {"error": f"SpinTimeout outside a world's root: {e}", "prefix": list(prefix), "tb": traceback.format_exc()}
     except MachineryError as e:
         return {"error": f"{type(e).__name__}: {e}", "prefix": list(prefix), "tb": traceback.format_exc()}
     except BaseException as e:  # harness bug
         return {"error": f"harness crashed: {type(e).__name__}: {e}", "prefix": list(prefix), "tb": traceback.format_exc()}
+    finally:
+        if armed:
+            _disarm_spin_alarm()
     if len(ch.points) < len(ch.prefix):
         return {"error": f"replay divergence: execution ended after {len(ch.points)} points, prefix has {len(ch.prefix)}",
                 "prefix": list(prefix), "tb": ""}
@@ -179,6 +218,8 @@ def run_once(spec, prefix, labels=None, want_fp=True, keep_trace=False, stop=Non
         "tdigest": _digest(ex.trace),
         "notes": ex.notes,
     }
+    if _SPINS[0] != spins0:
+        res["spin"] = True
     if keep_trace or ex.violations:
         res["trace"] = ex.trace
     return res
@@ -271,7 +312,15 @@ def explore(spec, *, bound=None, merge=True, max_execs=None, max_seconds=None, p
             results = (run_once(t[0], t[1], t[2], t[3], False, _stop if merge else None) for t in tasks)
         nxt = []
         cut_short = False
+        spun = 0
         for (prefix, _), r in zip(frontier, results):
+            if spun >= 3:
+                # executions of this scenario burn their whole CPU allowance (library code spinning without a scheduling point):
+                # each costs SPIN_LIMIT seconds, the verdict is in, exploring the rest of the scenario would take hours
+                st.caps.append(f"exploration of this scenario stopped: {spun} executions exceeded the CPU limit of {SPIN_LIMIT}s per execution (livelock verdicts recorded)")
+                st.exhaustive = False
+                cut_short = True
+                break
             if max_seconds is not None and pool is None and st.evaluations % 64 == 0 and time.time() - t0 > max_seconds and gen > 0:
                 # the time cap is also honoured inside a generation (in-process exploration only: runs are produced lazily)
                 cut_short = True
@@ -279,6 +328,8 @@ def explore(spec, *, bound=None, merge=True, max_execs=None, max_seconds=None, p
             st.evaluations += 1
             if "error" in r:
                 raise MachineryError(f"{spec[1]}{spec[2]}: {r['error']} prefix={r['prefix']}\n{r.get('tb','')}")
+            if r.get("spin"):
+                spun += 1
             pts = r["points"]
             st.max_depth = max(st.max_depth, len(pts))
             labels = [(p[0], p[1]) for p in pts]
